@@ -1081,8 +1081,13 @@ func TestDriverStatedb(t *testing.T) {
 	side := NewSidecar("statedb", seed,
 		"case = random op sequence (8..60 ops quick, ..300 thorough; depth <= 13) on the real CStateDB: StateDB interface ops, foreign-module writes through GetCurrentContext() "+
 			"(bank, cpc allowance, staking delegate/undelegate/redelegate, distribution withdraw), real evm.Call frames into ERC-20 / staking precompiles directly and through a forwarder "+
-			"contract that returns / REVERTs / hits INVALID, nested Snapshot / RevertToSnapshot, then CommitMultiStore or discard; every step compared with Model/CacheStack.v. "+
-			"non-trivial = distinct sequence containing a snapshot, a revert that really undid something and at least one foreign-module write or precompile frame")
+			"contract that returns / REVERTs / hits INVALID (all frames of a case on ONE EVM instance, the precompile's effect checked against its arguments), copy-versus-alias gadgets "+
+			"(entry present, snapshot, further entry for the same address, revert, re-add) on access-list slots / transient storage / logs / touched+suicided, nested Snapshot / RevertToSnapshot, "+
+			"then CommitMultiStore or discard; every step compared with Model/CacheStack.v. "+
+			"non-trivial = distinct sequence containing a snapshot, a revert that really undid something and at least one foreign-module write or precompile frame. "+
+			"Plus (cases 1000000+) random call trees as real transactions: frames on three interpreter hosts calling ERC-20 / staking precompile methods repeatedly (one favourite method per tree), "+
+			"SSTORE / LOG / CREATE / value / touch / SELFDESTRUCT / warmth probes, frames ending by RETURN / REVERT / INVALID / out of gas, compared with the survivors-only twin and a Go ledger; "+
+			"non-trivial = tree with a leaf in a failing frame and (a kept successful leaf or a failing top frame)")
 	cases := NewCases(dir, "From Evm Require Import CacheStack CorrCacheStack.", "sdb_mismatches")
 	rng := NewRng(seed)
 	e := newEnv(t)
